@@ -43,6 +43,22 @@ pub struct TypeCollector {
     pub known_structs: HashMap<String, StructInfo>,
 }
 
+/// Function names made unique, in order: a name that is already taken gets the smallest numeric
+/// suffix (2, 3, ...) that is still free
+fn unique_function_names(names: &[String]) -> Vec<String> {
+    let mut unique: Vec<String> = Vec::new();
+    for name in names {
+        let mut candidate = name.clone();
+        let mut suffix: usize = 2;
+        while unique.contains(&candidate) {
+            candidate = format!("{}{}", name, suffix);
+            suffix += 1;
+        }
+        unique.push(candidate);
+    }
+    unique
+}
+
 impl TypeCollector {
     pub fn new() -> Self {
         Self {
@@ -236,6 +252,15 @@ impl TypeCollector {
                 }
                 None => contexts.push(context),
             }
+        }
+
+        // Distinct event names can lead to the same function name (`user-login`, `user_login`)
+        let names: Vec<String> = contexts
+            .iter()
+            .map(|context| context.ts_function_name.clone())
+            .collect();
+        for (context, name) in contexts.iter_mut().zip(unique_function_names(&names)) {
+            context.ts_function_name = name;
         }
         contexts
     }
